@@ -589,10 +589,10 @@ func C01(c *core.Ctx) {
 				return nodeN != nil && (v == core.Strip(nodeN) || core.Same(v, nodeN))
 			}
 			if (isN(x) && isSentinel(y)) || (isN(y) && isSentinel(x)) {
-				if op == token.EQL {
-					return 1, 0
-				}
-				return 0, 1
+				// and N != E says the names differ: E is nil (S, the deepest node on the
+				// path of the name, is shallower than the name, and so is every ancestor)
+				// or E is S and N is a proper ancestor of S
+				return core.Iff(op == token.EQL)
 			}
 			return 0, 0
 		}}
